@@ -151,59 +151,116 @@ func C14(p *Prog, r *Run) {
 	r.Explanation = "Decided on NNode.Depth and Network.MaxActivationDepthWithCap: (1) no return is reachable from `visited = true` without `visited = false` on the same node - by an explicit store or by a deferred call that was certainly registered and clears the mark on each of its paths (flag-sensitive path search over the SSA CFG, every path, including the error-propagation return); the same for the successful returns of every other function of the package that sets the mark; (2) every recursive call is guarded by `!in.visited` of the node it recurses into and dominated by the receiver's mark (termination on cyclic graphs), every iteration over the incoming links recurses unless the source is marked, and the loop is left early only after a recursion error; (3) the depth-exceeded error originates only under `cap > 0 && d > cap` (strict) and returns the cap, errors from the recursion are propagated unchanged (decided per return alternative: value and error that belong together, also when returns are merged or results live in cells); (4) under every case in which IsSensor holds, Depth returns (d, nil) (or the cap error) without recursing; the recursion passes d+1 and the same cap, results are folded with a strict `>` maximum that starts at d, over the incoming links and over all outputs starting from depth 0, and the shortcut 1 is returned only when len(allNodes) == len(inputs)+len(Outputs) (linear form). Not decided: the numeric equality with the longest path on every DAG (follows from 2-4 by induction, which the checker does not perform)."
 	depth := p.Func(PkgN, "NNode.Depth")
 	visited := p.Field(PkgN, "NNode", "visited")
-	r.Fn(FuncName(depth))
-	tm := NewTermer(depth)
-	T := func(v ssa.Value) *Term { return c14T(tm, v) }
 	sentinelG, _ := p.SSAPk[PkgN].Members["ErrMaximalNetDepthExceeded"].(*ssa.Global)
 	isSentinel := func(v ssa.Value) bool {
 		u, ok := v.(*ssa.UnOp)
 		return ok && sentinelG != nil && u.Op == token.MUL && u.X == ssa.Value(sentinelG)
 	}
-	// depthResult: v is result #idx of a call of NNode.Depth - returns that call
+	// the depth functions: NNode.Depth and the new workers it was split into (robust_c14.go); every obligation on
+	// Depth is an obligation on each of them, and a call of any of them is a depth query
+	type member struct {
+		fn    *ssa.Function
+		tm    *Termer
+		pfx   string // prefix of the obligation ids
+		node  string // how the termer renders the node the query starts from
+		cases func() []*c14RetCase
+	}
+	inFamily := map[*ssa.Function]bool{}
+	var family []*member
+	famFns := c14DepthFamily(depth)
+	for _, fn := range famFns {
+		inFamily[fn] = true
+	}
+	for _, fn := range famFns {
+		fn := fn
+		if fn != depth {
+			// fn is g when it only forwards to g and the chain of forwarders ends in a member that does the work
+			g := fn
+			for k := 0; k <= len(famFns) && g != nil && inFamily[g]; k++ {
+				h := c14Forwards(g)
+				if h == nil {
+					break
+				}
+				g = h
+			}
+			if g != fn && g != nil && inFamily[g] && c14Forwards(g) == nil {
+				continue // nothing of its own to examine
+			}
+		}
+		m := &member{fn: fn, tm: NewTermer(fn), pfx: fn.Name()}
+		if fn == depth {
+			m.pfx = "Depth"
+		}
+		m.node = m.tm.Of(fn.Params[0]).String()
+		var cs []*c14RetCase
+		done := false
+		m.cases = func() []*c14RetCase {
+			// what the function returns, path by path (value and error that are returned together)
+			if !done {
+				var complete bool
+				cs, complete = c14ReturnCases(fn, 4000)
+				if !complete {
+					Bail(m.pfx+".returns.paths", p.Pos(fn.Pos()), "too many paths through "+fn.Name())
+				}
+				done = true
+				for _, c := range cs {
+					r.PathsExplored += len(c.Paths)
+				}
+			}
+			return cs
+		}
+		family = append(family, m)
+		r.Fn(FuncName(fn))
+	}
+	// Depth itself may be a mere forwarder to a worker that could not be expanded in place: then the worker carries
+	// all obligations and Depth none
+	if g := c14Forwards(depth); g != nil && inFamily[g] && g != depth && len(family) > 1 {
+		r.OK("Depth.forward", p.Pos(depth.Pos()), "Depth hands its node, depth and cap unchanged to "+g.Name()+" and returns its results")
+		family = family[1:]
+	}
+	// depthResult: v is result #idx of a depth query - returns that call
 	depthResult := func(v ssa.Value, idx int) *ssa.Call {
 		x, ok := v.(*ssa.Extract)
 		if !ok || x.Index != idx {
 			return nil
 		}
 		c, ok := x.Tuple.(*ssa.Call)
-		if !ok || c.Call.StaticCallee() != depth {
+		if !ok || !inFamily[c.Call.StaticCallee()] {
 			return nil
 		}
 		return c
 	}
-	// what Depth returns, path by path (value and error that are returned together)
-	var dCases []*c14RetCase
-	dCasesDone := false
-	depthCases := func() []*c14RetCase {
-		if !dCasesDone {
-			cs, complete := c14ReturnCases(depth, 4000)
-			if !complete {
-				Bail("Depth.returns.paths", p.Pos(depth.Pos()), "too many paths through NNode.Depth")
+	// queries: the depth queries made by fn
+	queries := func(fn *ssa.Function) []ssa.CallInstruction {
+		var out []ssa.CallInstruction
+		Instrs(fn, func(_ *ssa.BasicBlock, _ int, in ssa.Instruction) {
+			if c, ok := in.(ssa.CallInstruction); ok && inFamily[c.Common().StaticCallee()] && !c.Common().IsInvoke() {
+				out = append(out, c)
 			}
-			dCases, dCasesDone = cs, true
-			for _, c := range cs {
-				r.PathsExplored += len(c.Paths)
-			}
-		}
-		return dCases
+		})
+		return out
 	}
 
 	r.Rule("C14.1", "mark/unmark pairing: no Return is reachable from a store visited=true without passing a store visited=false on the same node (explicit, or by a registered deferred call); in the other functions of the package that set the mark, no successful return is", func() {
-		marks := c14MarkPairing(p, depth, visited, IsReturn, &r.PathsExplored)
-		for _, m := range marks {
-			if m.Witness != nil {
-				r.Bad("Depth.visited", p.Pos(m.Store.Pos()), "a return is reachable after `visited = true` without clearing the mark: a capped or failed query leaves traversal marks behind and a later query is truncated", m.Witness...)
-			} else {
-				r.OK("Depth.visited", p.Pos(m.Store.Pos()), "every path from the mark to a return clears it")
+		nMarks := 0
+		for _, mb := range family {
+			marks := c14MarkPairing(p, mb.fn, visited, IsReturn, &r.PathsExplored)
+			for _, m := range marks {
+				if m.Witness != nil {
+					r.Bad(mb.pfx+".visited", p.Pos(m.Store.Pos()), "a return is reachable after `visited = true` without clearing the mark: a capped or failed query leaves traversal marks behind and a later query is truncated", m.Witness...)
+				} else {
+					r.OK(mb.pfx+".visited", p.Pos(m.Store.Pos()), "every path from the mark to a return clears it")
+				}
 			}
+			nMarks += len(marks)
 		}
-		r.Floor("visited=true stores in Depth", len(marks), 1)
+		r.Floor("visited=true stores in Depth", nMarks, 1)
 		// Depth trusts the mark, so every other traversal that sets it must hand it back cleared as well: a successful
 		// call (one that does not return a non-nil error) of such a function leaves no mark behind.
 		pinned := PinnedFuncs()
 		srcFuncs := p.SrcFuncs()
 		for _, fn := range srcFuncs {
-			if fn == depth || fn.Pkg == nil || fn.Pkg.Pkg.Path() != PkgN {
+			if inFamily[fn] || fn.Pkg == nil || fn.Pkg.Pkg.Path() != PkgN {
 				continue
 			}
 			// a helper introduced by a refactoring whose calls were all expanded in place (source normalisation) is
@@ -249,87 +306,93 @@ func C14(p *Prog, r *Run) {
 	})
 
 	r.Rule("C14.2", "termination: each recursive call is control-dependent on !visited of the node it recurses into, and the receiver's own mark dominates the call; every incoming link is followed unless its source is marked or an error ends the query", func() {
-		calls := CallsTo(depth, depth)
-		for _, c := range calls {
-			r.CallSites++
-			recvT := T(c.Common().Args[0])
-			want := recvT.String() + ".visited"
-			guarded := c14Holds(c14Lits(tm, Guards(c.Block())), want, false)
-			r.Check(guarded, "Depth.recursion.guard", p.Pos(c.Pos()), "the recursion into "+recvT.String()+" is guarded by !"+want,
-				"the recursive call into "+recvT.String()+" is not guarded by its visited mark: the search does not terminate on cyclic networks")
-			marked := false
-			for _, st := range FieldStores(depth, visited) {
-				if IsConstBool(st.Val, true) && c14IsParam(depth, st.Addr.(*ssa.FieldAddr).X, 0) &&
-					(st.Block() == c.Block() && instrIndex(st) < instrIndex(c) || st.Block().Dominates(c.Block()) && st.Block() != c.Block()) {
-					marked = true
-				}
-			}
-			r.Check(marked, "Depth.recursion.mark", p.Pos(c.Pos()), "the receiver is marked visited before recursing", "the receiver is not marked visited before the recursive call: a cycle through it is not detected")
-			// arguments: d+1 and the same cap
-			d, cp := T(c.Common().Args[1]), T(c.Common().Args[2])
-			okD := d.Op == "bin" && d.Name == "+" && ((isParamIdx(d.Args[0], 1) && d.Args[1].String() == "1") || (isParamIdx(d.Args[1], 1) && d.Args[0].String() == "1"))
-			r.Check(okD, "Depth.recursion.d+1", p.Pos(c.Pos()), "the recursion passes d+1", "the recursion passes "+d.String()+" as depth, expected d+1")
-			r.Check(isParamIdx(cp, 2), "Depth.recursion.cap", p.Pos(c.Pos()), "the recursion passes the cap on unchanged", "the recursion passes "+cp.String()+" as cap")
-			// fold: strict maximum
-			var ex ssa.Value
-			for _, ref := range *c.Value().Referrers() {
-				if e, ok := ref.(*ssa.Extract); ok && e.Index == 0 {
-					ex = e
-				}
-			}
-			examined := false
-			for _, ref := range *c.Value().Referrers() {
-				if e, ok := ref.(*ssa.Extract); ok && e.Index == 1 && len(*e.Referrers()) > 0 {
-					examined = true
-				}
-			}
-			r.Check(examined, "Depth.recursion.err", p.Pos(c.Pos()), "the error of the recursive query is examined", "the error of the recursive query is ignored: a depth-exceeded result (the cap) is folded in as if it were a depth")
-			if ex == nil {
-				r.Bad("Depth.fold", p.Pos(c.Pos()), "the depth returned by the recursion is not used")
-			} else {
-				op, _, ok := foldsAsMax(ex)
-				r.Check(ok && (op == token.GTR || op == token.GEQ), "Depth.fold", p.Pos(c.Pos()), "the result is the maximum over the incoming links",
-					fmt.Sprintf("the recursive depths are not folded as a maximum (fold found=%v op=%s)", ok, op))
-			}
-		}
-		r.Floor("recursive Depth calls", len(calls), 1)
-		// every incoming link is followed unless its source is marked: an iteration of the link loop that does not recurse
-		// must have seen the source's visited mark set
-		for _, c := range calls {
-			l := scanLoopOf(Loops(depth), c.Block())
-			if l == nil || !loopRangesOver(tm, l, "recv.Incoming") {
-				r.Bad("Depth.links.loop", p.Pos(c.Pos()), "the recursion is not inside a loop over all incoming links of the node")
-				continue
-			}
-			paths, complete := EnumIterPaths(depth, l, 500)
-			if !complete {
-				r.Undecided("Depth.links.paths", p.Pos(c.Pos()), "too many paths")
-				continue
-			}
-			r.PathsExplored += len(paths)
-			want := T(c.Common().Args[0]).String() + ".visited"
-			okAll := true
-			var wit []string
-			for _, ip := range paths {
-				if ip.End != "back" || ip.OnPath(c) {
-					continue
-				}
-				seen := false
-				for _, g := range ip.Conds {
-					if a, v := c14Lit(tm, g.Cond, g.True); a == want && v {
-						seen = true
+		nCalls := 0
+		for _, mb := range family {
+			depth, tm, pfx := mb.fn, mb.tm, mb.pfx
+			T := func(v ssa.Value) *Term { return c14T(tm, v) }
+			calls := queries(depth)
+			nCalls += len(calls)
+			for _, c := range calls {
+				r.CallSites++
+				recvT := T(c.Common().Args[0])
+				want := recvT.String() + ".visited"
+				guarded := c14Holds(c14Lits(tm, Guards(c.Block())), want, false)
+				r.Check(guarded, pfx+".recursion.guard", p.Pos(c.Pos()), "the recursion into "+recvT.String()+" is guarded by !"+want,
+					"the recursive call into "+recvT.String()+" is not guarded by its visited mark: the search does not terminate on cyclic networks")
+				marked := false
+				for _, st := range FieldStores(depth, visited) {
+					if IsConstBool(st.Val, true) && c14IsParam(depth, st.Addr.(*ssa.FieldAddr).X, 0) &&
+						(st.Block() == c.Block() && instrIndex(st) < instrIndex(c) || st.Block().Dominates(c.Block()) && st.Block() != c.Block()) {
+						marked = true
 					}
 				}
-				if !seen {
-					okAll = false
-					wit = ip.Describe(p)
+				r.Check(marked, pfx+".recursion.mark", p.Pos(c.Pos()), "the receiver is marked visited before recursing", "the receiver is not marked visited before the recursive call: a cycle through it is not detected")
+				// arguments: d+1 and the same cap
+				d, cp := T(c.Common().Args[1]), T(c.Common().Args[2])
+				okD := d.Op == "bin" && d.Name == "+" && ((isParamIdx(d.Args[0], 1) && d.Args[1].String() == "1") || (isParamIdx(d.Args[1], 1) && d.Args[0].String() == "1"))
+				r.Check(okD, pfx+".recursion.d+1", p.Pos(c.Pos()), "the recursion passes d+1", "the recursion passes "+d.String()+" as depth, expected d+1")
+				r.Check(isParamIdx(cp, 2), pfx+".recursion.cap", p.Pos(c.Pos()), "the recursion passes the cap on unchanged", "the recursion passes "+cp.String()+" as cap")
+				// fold: strict maximum
+				var ex ssa.Value
+				for _, ref := range *c.Value().Referrers() {
+					if e, ok := ref.(*ssa.Extract); ok && e.Index == 0 {
+						ex = e
+					}
+				}
+				examined := false
+				for _, ref := range *c.Value().Referrers() {
+					if e, ok := ref.(*ssa.Extract); ok && e.Index == 1 && len(*e.Referrers()) > 0 {
+						examined = true
+					}
+				}
+				r.Check(examined, pfx+".recursion.err", p.Pos(c.Pos()), "the error of the recursive query is examined", "the error of the recursive query is ignored: a depth-exceeded result (the cap) is folded in as if it were a depth")
+				if ex == nil {
+					r.Bad(pfx+".fold", p.Pos(c.Pos()), "the depth returned by the recursion is not used")
+				} else {
+					op, _, ok := foldsAsMax(ex)
+					r.Check(ok && (op == token.GTR || op == token.GEQ), pfx+".fold", p.Pos(c.Pos()), "the result is the maximum over the incoming links",
+						fmt.Sprintf("the recursive depths are not folded as a maximum (fold found=%v op=%s)", ok, op))
 				}
 			}
-			r.Check(okAll, "Depth.links.all-followed", p.Pos(c.Pos()), "a link is skipped only when its source node is marked visited", "an incoming link can be skipped although its source is not marked visited: paths through that link are not measured and the depth is under-reported", wit...)
-			early := c14EarlyLeave(p, l, paths, c)
-			r.Check(early == nil, "Depth.links.exit", p.Pos(c.Pos()), "the loop over the incoming links ends only when the links are exhausted or the recursion reported an error",
-				"the loop over the incoming links can end before all links were followed although no recursion error occurred: the remaining links are not measured (depth under-reported, depth-exceeded error lost)", early...)
+			// every incoming link is followed unless its source is marked: an iteration of the link loop that does not recurse
+			// must have seen the source's visited mark set
+			for _, c := range calls {
+				l := scanLoopOf(Loops(depth), c.Block())
+				if l == nil || !loopRangesOver(tm, l, mb.node+".Incoming") {
+					r.Bad(pfx+".links.loop", p.Pos(c.Pos()), "the recursion is not inside a loop over all incoming links of the node")
+					continue
+				}
+				paths, complete := EnumIterPaths(depth, l, 500)
+				if !complete {
+					r.Undecided(pfx+".links.paths", p.Pos(c.Pos()), "too many paths")
+					continue
+				}
+				r.PathsExplored += len(paths)
+				want := T(c.Common().Args[0]).String() + ".visited"
+				okAll := true
+				var wit []string
+				for _, ip := range paths {
+					if ip.End != "back" || ip.OnPath(c) {
+						continue
+					}
+					seen := false
+					for _, g := range ip.Conds {
+						if a, v := c14Lit(tm, g.Cond, g.True); a == want && v {
+							seen = true
+						}
+					}
+					if !seen {
+						okAll = false
+						wit = ip.Describe(p)
+					}
+				}
+				r.Check(okAll, pfx+".links.all-followed", p.Pos(c.Pos()), "a link is skipped only when its source node is marked visited", "an incoming link can be skipped although its source is not marked visited: paths through that link are not measured and the depth is under-reported", wit...)
+				early := c14EarlyLeave(p, l, paths, c)
+				r.Check(early == nil, pfx+".links.exit", p.Pos(c.Pos()), "the loop over the incoming links ends only when the links are exhausted or the recursion reported an error",
+					"the loop over the incoming links can end before all links were followed although no recursion error occurred: the remaining links are not measured (depth under-reported, depth-exceeded error lost)", early...)
+			}
 		}
+		r.Floor("recursive Depth calls", nCalls, 1)
 	})
 
 	r.Rule("C14.3", "cap: ErrMaximalNetDepthExceeded originates only under cap>0 && d>cap (strict) and is returned together with the cap; recursion errors are propagated unchanged", func() {
@@ -337,44 +400,49 @@ func C14(p *Prog, r *Run) {
 			panic(anchorMissing{"network.ErrMaximalNetDepthExceeded"})
 		}
 		n := 0
-		for _, rc := range depthCases() {
-			if len(rc.Vals) != 2 {
-				continue
-			}
-			ret, v, e := rc.Ret, rc.Vals[0], rc.Vals[1]
-			switch {
-			case isSentinel(e):
-				n++
-				capPos, strict := true, true
-				for _, pa := range rc.Paths {
-					lits := pa.Lits(tm)
-					capPos = capPos && c14Holds(lits, "0<p2", true)
-					strict = strict && c14Holds(lits, "p2<p1", true)
+		for _, mb := range family {
+			depth, tm, pfx := mb.fn, mb.tm, mb.pfx
+			T := func(v ssa.Value) *Term { return c14T(tm, v) }
+			depthCases := mb.cases
+			for _, rc := range depthCases() {
+				if len(rc.Vals) != 2 {
+					continue
 				}
-				r.Check(capPos && strict, "Depth.cap.guard", p.Pos(ret.Pos()), "the error is raised only under cap > 0 && d > cap",
-					fmt.Sprintf("the depth-exceeded error is raised under a different condition (cap>0 seen: %v, strict d>cap seen: %v): a depth equal to the cap must not be an error and cap 0 means no cap", capPos, strict))
-				r.Check(v == ssa.Value(depth.Params[2]), "Depth.cap.value", p.Pos(ret.Pos()), "the cap is returned with the error", "the value returned with the depth-exceeded error is "+T(v).String()+", expected the cap")
-			case rc.ErrNil(1):
-			case depthResult(e, 1) != nil:
-				// propagated: the value must come from the same call (and the same execution of it)
-				same := depthResult(v, 0) == depthResult(e, 1)
-				for j, pa := range rc.Paths {
-					if same && !pa.sameInstance(depthResult(e, 1), rc.Pos[j][0], rc.Pos[j][1]) {
-						same = false
+				ret, v, e := rc.Ret, rc.Vals[0], rc.Vals[1]
+				switch {
+				case isSentinel(e):
+					n++
+					capPos, strict := true, true
+					for _, pa := range rc.Paths {
+						lits := pa.Lits(tm)
+						capPos = capPos && c14Holds(lits, "0<p2", true)
+						strict = strict && c14Holds(lits, "p2<p1", true)
 					}
+					r.Check(capPos && strict, pfx+".cap.guard", p.Pos(ret.Pos()), "the error is raised only under cap > 0 && d > cap",
+						fmt.Sprintf("the depth-exceeded error is raised under a different condition (cap>0 seen: %v, strict d>cap seen: %v): a depth equal to the cap must not be an error and cap 0 means no cap", capPos, strict))
+					r.Check(v == ssa.Value(depth.Params[2]), pfx+".cap.value", p.Pos(ret.Pos()), "the cap is returned with the error", "the value returned with the depth-exceeded error is "+T(v).String()+", expected the cap")
+				case rc.ErrNil(1):
+				case depthResult(e, 1) != nil:
+					// propagated: the value must come from the same call (and the same execution of it)
+					same := depthResult(v, 0) == depthResult(e, 1)
+					for j, pa := range rc.Paths {
+						if same && !pa.sameInstance(depthResult(e, 1), rc.Pos[j][0], rc.Pos[j][1]) {
+							same = false
+						}
+					}
+					r.Check(same, pfx+".cap.propagate", p.Pos(ret.Pos()), "recursion errors are propagated with their value", "a recursion error is returned with "+T(v).String())
+				default:
+					r.Bad(pfx+".cap.origin", p.Pos(ret.Pos()), "Depth returns an error of unknown origin: "+T(e).String())
 				}
-				r.Check(same, "Depth.cap.propagate", p.Pos(ret.Pos()), "recursion errors are propagated with their value", "a recursion error is returned with "+T(v).String())
-			default:
-				r.Bad("Depth.cap.origin", p.Pos(ret.Pos()), "Depth returns an error of unknown origin: "+T(e).String())
+			}
+			// an error reported by the recursion ends the query with that error
+			if rc, x := c14DroppedError(depthCases(), 1, func(v ssa.Value) bool { return depthResult(v, 1) != nil }); rc != nil {
+				r.Bad(pfx+".cap.kept", p.Pos(rc.Ret.Pos()), "after the recursion reported the error "+T(x).String()+" Depth can return "+T(rc.Vals[1]).String()+" instead: the depth-exceeded error is lost and the cap is reported as if it were the depth")
+			} else {
+				r.OK(pfx+".cap.kept", p.Pos(depth.Pos()), "an error reported by the recursion is returned")
 			}
 		}
 		r.Floor("returns of the depth-exceeded sentinel", n, 1)
-		// an error reported by the recursion ends the query with that error
-		if rc, x := c14DroppedError(depthCases(), 1, func(v ssa.Value) bool { return depthResult(v, 1) != nil }); rc != nil {
-			r.Bad("Depth.cap.kept", p.Pos(rc.Ret.Pos()), "after the recursion reported the error "+T(x).String()+" Depth can return "+T(rc.Vals[1]).String()+" instead: the depth-exceeded error is lost and the cap is reported as if it were the depth")
-		} else {
-			r.OK("Depth.cap.kept", p.Pos(depth.Pos()), "an error reported by the recursion is returned")
-		}
 	})
 
 	r.Rule("C14.4", "counting: sensors return d; MaxActivationDepthWithCap takes the strict maximum of Depth(0, cap) over all outputs, starting from 0, and returns 1 only when there are no hidden nodes", func() {
@@ -382,121 +450,136 @@ func C14(p *Prog, r *Run) {
 		// error raised before the test - and never recurses. The cases are read off IsSensor's own body, so a test written
 		// out by hand (a switch over the neuron type) is the same condition.
 		isSensor := p.Func(PkgN, "NNode.IsSensor")
-		cases, fields := c14TrueCases(isSensor)
-		for _, f := range fields {
-			if len(FieldStores(depth, f)) > 0 {
-				cases = nil // the predicate's inputs change inside Depth: only the call itself is a stable test
-			}
-		}
-		if cases == nil {
-			cases = []map[string]bool{{}}
-		}
-		recursion := CallsTo(depth, depth)
-		foundBase, recurses := true, false
-		badRet := ""
-		var basePos token.Pos
-		var wit []string
-		for _, cs := range cases {
-			decide := func(cond ssa.Value) (bool, bool) {
-				neg := false
-				for {
-					if u, ok := cond.(*ssa.UnOp); ok && u.Op == token.NOT {
-						cond, neg = u.X, !neg
-						continue
+		for _, mb := range family {
+			depth, tm, pfx := mb.fn, mb.tm, mb.pfx
+			T := func(v ssa.Value) *Term { return c14T(tm, v) }
+			depthCases := mb.cases
+			cases, fields := c14TrueCases(isSensor)
+			if mb.node != "recv" {
+				// the cases are literals over IsSensor's receiver: here that node is called mb.node
+				for i, cs := range cases {
+					ren := map[string]bool{}
+					for k, v := range cs {
+						ren[c14RenameWord(k, "recv", mb.node)] = v
 					}
-					break
+					cases[i] = ren
 				}
-				if c, ok := cond.(*ssa.Call); ok && c.Call.StaticCallee() == isSensor && len(c.Call.Args) == 1 && c14IsParam(depth, c.Call.Args[0], 0) {
-					return !neg, true
-				}
-				a, v := c14Lit(tm, cond, true)
-				if val, ok := cs[a]; ok {
-					return (val == v) != neg, true
-				}
-				// x == c2 is false once x == c1 is known for another constant c1
-				if x, cst, ok := c14EqConst(tm, cond); ok && c14OtherConst(cs, x, cst) {
-					isEq := cond.(*ssa.BinOp).Op == token.EQL
-					return (!isEq) != neg, true
-				}
-				return false, false
 			}
-			paths, complete := c14EnumPaths(depth, decide, 4000)
-			if !complete {
-				r.Undecided("Depth.sensor.paths", p.Pos(depth.Pos()), "too many paths")
-				continue
+			for _, f := range fields {
+				if len(FieldStores(depth, f)) > 0 {
+					cases = nil // the predicate's inputs change inside Depth: only the call itself is a stable test
+				}
 			}
-			r.PathsExplored += len(paths)
-			base := false
-			for _, pa := range paths {
-				for _, c := range recursion {
-					if pa.OnPath(c) {
-						recurses = true
-						if wit == nil {
-							for _, b := range pa.Blocks {
-								wit = append(wit, describeBlock(p, b, nil))
+			if cases == nil {
+				cases = []map[string]bool{{}}
+			}
+			recursion := queries(depth)
+			foundBase, recurses := true, false
+			badRet := ""
+			var basePos token.Pos
+			var wit []string
+			for _, cs := range cases {
+				decide := func(cond ssa.Value) (bool, bool) {
+					neg := false
+					for {
+						if u, ok := cond.(*ssa.UnOp); ok && u.Op == token.NOT {
+							cond, neg = u.X, !neg
+							continue
+						}
+						break
+					}
+					if c, ok := cond.(*ssa.Call); ok && c.Call.StaticCallee() == isSensor && len(c.Call.Args) == 1 && c14IsParam(depth, c.Call.Args[0], 0) {
+						return !neg, true
+					}
+					a, v := c14Lit(tm, cond, true)
+					if val, ok := cs[a]; ok {
+						return (val == v) != neg, true
+					}
+					// x == c2 is false once x == c1 is known for another constant c1
+					if x, cst, ok := c14EqConst(tm, cond); ok && c14OtherConst(cs, x, cst) {
+						isEq := cond.(*ssa.BinOp).Op == token.EQL
+						return (!isEq) != neg, true
+					}
+					return false, false
+				}
+				paths, complete := c14EnumPaths(depth, decide, 4000)
+				if !complete {
+					r.Undecided(pfx+".sensor.paths", p.Pos(depth.Pos()), "too many paths")
+					continue
+				}
+				r.PathsExplored += len(paths)
+				base := false
+				for _, pa := range paths {
+					for _, c := range recursion {
+						if pa.OnPath(c) {
+							recurses = true
+							if wit == nil {
+								for _, b := range pa.Blocks {
+									wit = append(wit, describeBlock(p, b, nil))
+								}
 							}
 						}
 					}
-				}
-				if len(pa.Ret.Results) != 2 {
-					continue
-				}
-				v, e := pa.Resolve(pa.Ret.Results[0]), pa.Resolve(pa.Ret.Results[1])
-				if isSentinel(e) {
-					continue // the cap error: its condition and value are rule C14.3
-				}
-				ec, isC := e.(*ssa.Const)
-				if v == ssa.Value(depth.Params[1]) && isC && ec.Value == nil {
-					base = true
-					if !basePos.IsValid() {
-						basePos = pa.Ret.Pos()
+					if len(pa.Ret.Results) != 2 {
+						continue
 					}
-					continue
-				}
-				if badRet == "" {
-					badRet = "(" + T(v).String() + ", " + T(e).String() + ")"
-					if len(cs) > 0 {
-						badRet += " when " + c14SortedAtoms(cs)
+					v, e := pa.Resolve(pa.Ret.Results[0]), pa.Resolve(pa.Ret.Results[1])
+					if isSentinel(e) {
+						continue // the cap error: its condition and value are rule C14.3
 					}
+					ec, isC := e.(*ssa.Const)
+					if v == ssa.Value(depth.Params[1]) && isC && ec.Value == nil {
+						base = true
+						if !basePos.IsValid() {
+							basePos = pa.Ret.Pos()
+						}
+						continue
+					}
+					if badRet == "" {
+						badRet = "(" + T(v).String() + ", " + T(e).String() + ")"
+						if len(cs) > 0 {
+							badRet += " when " + c14SortedAtoms(cs)
+						}
+					}
+				}
+				if !base {
+					foundBase = false
 				}
 			}
-			if !base {
-				foundBase = false
+			if !basePos.IsValid() {
+				basePos = depth.Pos()
 			}
-		}
-		if !basePos.IsValid() {
-			basePos = depth.Pos()
-		}
-		if badRet != "" {
-			r.Bad("Depth.sensor", p.Pos(basePos), "a sensor returns "+badRet)
-		} else if foundBase && !recurses {
-			r.OK("Depth.sensor", p.Pos(basePos), "a sensor returns (d, nil)")
-		}
-		r.Check(foundBase && !recurses, "Depth.sensor.branch", p.Pos(depth.Pos()), "the sensor base case exists: a sensor returns before the traversal", "Depth has no base case for sensors", wit...)
-		// the running maximum starts at d: whenever Depth returns without an error, the value is d itself (no link was
-		// followed, or none led deeper) or a depth reported by the recursion
-		{
-			bad := ""
-			var okPos, badPos token.Pos
-			for _, rc := range depthCases() {
-				if len(rc.Vals) != 2 || !rc.ErrNil(1) {
-					continue
-				}
-				v := rc.Vals[0]
-				if v == ssa.Value(depth.Params[1]) || depthResult(v, 0) != nil {
-					if rc.Ret.Pos() > okPos {
-						okPos = rc.Ret.Pos()
+			if badRet != "" {
+				r.Bad(pfx+".sensor", p.Pos(basePos), "a sensor returns "+badRet)
+			} else if foundBase && !recurses {
+				r.OK(pfx+".sensor", p.Pos(basePos), "a sensor returns (d, nil)")
+			}
+			r.Check(foundBase && !recurses, pfx+".sensor.branch", p.Pos(depth.Pos()), "the sensor base case exists: a sensor returns before the traversal", "Depth has no base case for sensors", wit...)
+			// the running maximum starts at d: whenever Depth returns without an error, the value is d itself (no link was
+			// followed, or none led deeper) or a depth reported by the recursion
+			{
+				bad := ""
+				var okPos, badPos token.Pos
+				for _, rc := range depthCases() {
+					if len(rc.Vals) != 2 || !rc.ErrNil(1) {
+						continue
 					}
-					continue
+					v := rc.Vals[0]
+					if v == ssa.Value(depth.Params[1]) || depthResult(v, 0) != nil {
+						if rc.Ret.Pos() > okPos {
+							okPos = rc.Ret.Pos()
+						}
+						continue
+					}
+					if bad == "" {
+						bad, badPos = T(v).String(), rc.Ret.Pos()
+					}
 				}
-				if bad == "" {
-					bad, badPos = T(v).String(), rc.Ret.Pos()
+				if bad != "" {
+					r.Bad(pfx+".acc.init", p.Pos(badPos), "the running maximum does not start at d: without an error Depth can return "+bad+", which is neither d nor a depth reported by the recursion")
+				} else {
+					r.OK(pfx+".acc.init", p.Pos(okPos), "the running maximum starts at d")
 				}
-			}
-			if bad != "" {
-				r.Bad("Depth.acc.init", p.Pos(badPos), "the running maximum does not start at d: without an error Depth can return "+bad+", which is neither d nor a depth reported by the recursion")
-			} else {
-				r.OK("Depth.acc.init", p.Pos(okPos), "the running maximum starts at d")
 			}
 		}
 
@@ -504,7 +587,7 @@ func C14(p *Prog, r *Run) {
 		r.Fn(FuncName(mx))
 		tmx := NewTermer(mx)
 		TX := func(v ssa.Value) *Term { return c14T(tmx, v) }
-		calls := CallsTo(mx, depth)
+		calls := queries(mx)
 		for _, c := range calls {
 			r.CallSites++
 			var a []*Term
